@@ -73,7 +73,7 @@ LEVEL_NOTE = ("Trusted: Lean kernel, harness + watchdog, the python framing pars
               "with bytes >= 0x80 are not generated); a request with a Transfer-Encoding whose last coding is not chunked (gzip, `chunked, gzip`, xchunked, empty) is "
               "dropped, the connection closed (4dff910, theorem dispatch_requires_framed_transfer_encoding); gzip/deflate codings before chunked are not decoded. "
               "A header line whose name is empty or holds a blank/tab/control character (`Content-Length : 5`) ends the block like a line without colon, the connection is closed (9bf376e); so does a line that starts with white space before any field was read (c2e6d14). "
-              "Repeated header fields keep the last value (single-valued Dic interface; outside_findings.txt): the oracle gives no opinion on streams that repeat Content-Length/Transfer-Encoding. Folded header lines are joined to the "
+              "HttpServer::serve ends every connection through closeBehind (7f6f841; model `closeBehind`: closed, the peer's remaining bytes dropped unless the socket is in error or closed by the reader). Repeated header fields keep the last value (single-valued Dic interface; outside_findings.txt): the oracle gives no opinion on streams that repeat Content-Length/Transfer-Encoding. Folded header lines are joined to the "
               "field value with one space (350c8ee) and received empty values are kept (988a64d); query tokens without `=` are "
               "dropped by Url::parseQuery by design (outside_findings.txt). Chunk framing is validated (4dbedbe, d0ace7d): size lines are 1-8 hex digits (<= 0x7fffffff) + blanks/;ext, each chunk must "
               "end in CRLF, trailer fields are not supported (such a request is dropped). "
@@ -893,7 +893,9 @@ def reference(line):
             if r is None:
                 return None
             recs, out, rest = r
-            return "n=%d%s | err=0 closed=0 out=%s rest=%d" % (len(recs), "".join(" [%s]" % x for x in recs), adler_rep(out), rest)
+            # HttpServer::serve ends the connection itself (closeBehind, 7f6f841): send side shut down, what the peer sent
+            # behind the last request served is read and dropped, the socket closed: nothing is left unread
+            return "n=%d%s | err=0 closed=1 out=%s rest=0" % (len(recs), "".join(" [%s]" % x for x in recs), adler_rep(out))
         if t[0] == "tcp" and len(t) >= 2:
             outs = []
             for h in t[1:]:
